@@ -1577,6 +1577,12 @@ func (w *world) opGenesisRoundTrip() {
 	}
 	am.InitGenesis(w.s.Ctx, w.s.App.AppCodec(), exported)
 	w.out.Count("genesis-roundtrip")
+	var gs migratetypes.GenesisState
+	w.s.App.AppCodec().MustUnmarshalJSON(exported, &gs)
+	w.out.Count(fmt.Sprintf("genesis-roundtrip:records=%d", len(gs.MigrateRecords)))
+	// the model runs ExportGenesis / InitGenesis as read from the code on its own records: every record and direction flag
+	// of the observation must be back
+	w.emit("genesis", "ok")
 	for id := range w.gone {
 		if a := w.byID[id]; a != nil && !w.s.App.MigrateKeeper.HasMigrateRecord(w.s.Ctx, a.addr) {
 			w.out.Violate("genesis: a migration record written by an accepted migration is exported by ExportGenesis but not restored by InitGenesis: the address can take part in a migration again after export/import")
@@ -2838,6 +2844,9 @@ func (w *world) chainScenario() {
 	mig(d4, e1) // old target as source
 	mig(d6, d5) // the pair reversed
 	w.opBlock(7)
+	if os.Getenv("VERIF_C14_GENESIS") == "1" {
+		w.opGenesisRoundTrip() // a restart from the exported genesis between the migrations: the one-shot records survive it
+	}
 	mig(u1, e2) // old source again
 	mig(u3, d4) // old target again
 	mig(u1, d4) // the same pair again
